@@ -73,3 +73,4 @@ for case, txt in [(1, "no fault, stream held is writable, write ends at a repres
     ob(f"HXPwrite_c{case}", ["C01", "C14"], entry="h_HXPwrite", enforce="HXPwrite", mode="bounded",
        bound=f"loop-free, all integers unbounded; input region: {txt}; caller's buffer <= 4096 bytes; at most two streams per call",
        defines=[f"H4V_CASE={case}"], **HX)
+
